@@ -4,13 +4,21 @@
    queue + worker/persisted image with absolute expiries/compaction/close/reopen/time passing) against the Abs map
    of KvAbs.tla as a refinement invariant: in every reachable state every read path (get fast and slow path, exists,
    keys, prefix scan, size, getBatch, ttl) answers what the reference map answers at `now`.
-   Self-tests: with Dev_ExpiredKeyResurrected (F-12a) / Dev_ReplayDropsPerRecord (F-12b) = TRUE TLC must report the
+   Self-tests: with Dev_ExpiredKeyResurrected (F-12a) / Dev_ReplayDropsPerRecord (F-12b) / Dev_SnapshotDropsExpired
+   (the snapshot half of F-12b alone: TTL, compaction, LATER expireAt / persist, clock past the original deadline,
+   restart) / Dev_PrefixStopsAtNul (C-string prefix comparison over byte-string keys) = TRUE TLC must report the
    violation; each counterexample becomes a probe history for the real code.
+   Keys are byte strings: KvAbs.tla holds two key universes (key ids / prefix ids -> bytes; universe 1 = binary keys
+   that are prefixes of each other and differ only after an embedded NUL, prefixes with NUL / equal to a key / longer
+   than every key / differing after the NUL) and decides "has prefix" on the bytes; removeWithPrefix takes a prefix id.
 2. KvMap.tla in generator mode prints operation histories (all histories of 3 steps, seeded simulation for longer
-   ones, the probes).  harness/drv_kvmap.cpp replays them on the REAL KVStore under a virtual CLOCK_REALTIME with
+   ones, the probes; all 5-step one-key histories with a SENSITIVE reopen - the model says the persisted image at the
+   reopen distinguishes the load orders, e.g. an expiry extended / removed after a compaction and the clock past the
+   original deadline; all 3-step set / TTL / remove / prefix-remove / restart histories over the binary keys and all six
+   prefixes).  harness/drv_kvmap.cpp replays them on the REAL KVStore under a virtual CLOCK_REALTIME with
    maxCacheSize = 1, (a) with a slow wheel - the eviction worker does not run, expired keys stay in memory - in both
    read orders, (b) with a 10 ms wheel where the worker runs all the time, (c) with a concurrent reader thread.
-   After every step ALL read APIs are logged.
+   After every step ALL read APIs are logged, keysWithPrefix for every prefix of the universe.
 3. TLC validates every log against spec/storage/KvMapTrace.tla (Abs map evaluated at the virtual now; concurrent
    reads must be explained by one of the states they overlapped).
 4. Concurrent part (readers / writers racing each other and the eviction worker).  Every API call of the code holds
@@ -33,19 +41,22 @@ DISK_KINDS = ["set", "setttl", "rm", "exp", "per", "compact", "close", "tick"]
 ACTIONS = ["Set", "SetTtl", "Remove", "SetBatch", "ExpireAt", "Persist", "Clear", "RemovePrefix", "Get", "TimePasses",
            "Fire", "WorkerStale", "WorkerReArm", "WorkerEvict", "Compact", "Close", "Reopen"]
 NV_DEFAULT = 2
+PFX_ALL = (1, 2, 3, 4, 5, 6)
 
 
-def module(ck, name, kinds=ALL_KINDS, invariants=("Inv_Reads", "Inv_Struct"), **const):
+def module(ck, name, kinds=ALL_KINDS, invariants=("Inv_Reads", "Inv_Struct"), pfx=(1,), **const):
     d = os.path.join(ck.work, name)
     os.makedirs(d, exist_ok=True)
     c = dict(NK=2, NV=NV_DEFAULT, MaxTime=3, MaxTtl=2, MaxOps=3, CacheMax=1, WorkerOn=True,
              Dev_ExpiredKeyResurrected=False, Dev_ReplayDropsPerRecord=False, Dev_CacheFillOutsideLock=False, NReaders=1,
-             Dev_EvictJournalOutsideLock=False, Emit=False)
+             Dev_EvictJournalOutsideLock=False, Emit=False,
+             KU=0, Dev_SnapshotDropsExpired=False, Dev_PrefixStopsAtNul=False, EmitSens=False)
     c.update(const)
     with open(os.path.join(d, "MCKvMap.tla"), "w") as f:
-        f.write("---- MODULE MCKvMap ----\nEXTENDS KvMap\nMCKinds == %s\n====\n" % vf.tla(set(kinds)))
+        f.write("---- MODULE MCKvMap ----\nEXTENDS KvMap\nMCKinds == %s\nMCPfx == %s\n====\n" % (vf.tla(set(kinds)), vf.tla(set(pfx))))
     consts = dict(c)
     consts["OpKinds"] = "<- MCKinds"
+    consts["RmpPfx"] = "<- MCPfx"
     cfg = os.path.join(d, "MCKvMap.cfg")
     vf.write_cfg(cfg, constants=consts, invariants=list(invariants))
     return os.path.join(d, "MCKvMap.tla"), cfg
@@ -76,7 +87,7 @@ def cex_history(r, nv):
         elif name == "Get": ops.append("get %d" % c["k"])
         elif name == "SetBatch": ops.append("batch %d 1:%d,2:%d" % (c["d"], c["a"], nv))
         elif name == "Clear": ops.append("clear")
-        elif name == "RemovePrefix": ops.append("rmp 1")
+        elif name == "RemovePrefix": ops.append("rmp %d" % c["p"])
         elif name == "Compact": ops.append("compact")
         elif name == "Close": ops.append("close")
         elif name == "Reopen": ops.append("open")
@@ -89,9 +100,13 @@ def run(ck):
     ck.make("drv_kvmap", "drv_s_kvmap")
     ck.rule = ("histories = step sequences printed by TLC from KvMap.tla in generator mode (every 3-step history over "
                "2 keys / 2 values / TTL 1-2 / absolute expiries 0-4 / time jumps 1-3, every 4-step TTL/expireAt/persist/"
-               "compact/close/tick history over one key, seeded simulation of 6-8 steps over 3 keys / 3 values, "
+               "compact/close/tick history over one key, every 5-step such history whose reopen the model calls sensitive "
+               "(the persisted image distinguishes load orders: e.g. expiry extended / removed after a compaction, clock past "
+               "the original deadline), every 3-step set/TTL/remove/prefix-remove/restart history over three binary keys "
+               "that are prefixes of each other with an embedded NUL and six prefixes (with NUL, equal to a key, longer than "
+               "every key), seeded simulation of 6-8 steps over 3 keys / 3 values / all prefixes, "
                "counterexamples of the Dev_* self-tests); each is replayed on the real store under a "
-               "virtual wall clock with all read APIs logged after every step, under a slow wheel (both read orders; cache sizes 0-3), a "
+               "virtual wall clock with all read APIs (keysWithPrefix for each of the six prefixes of the key universe) logged after every step, under a slow wheel (both read orders; cache sizes 0-3), a "
                "10 ms wheel (eviction worker active) and with a concurrent reader; concurrent part: programs derived from the "
                "TLC counterexamples of Dev_CacheFillOutsideLock (preemption-bounded DFS of the real store's schedules) and "
                "seeded random 2-3 thread programs under random schedules, judged for linearizability; non-trivial = the history lets an "
@@ -109,6 +124,20 @@ def run(ck):
     jobs.append(("dev_res", mod, cfg, dict(workers=1, dump_trace=os.path.join(ck.work, "cex_res.json"))))
     mod, cfg = module(ck, "dev_rep", kinds=DISK_KINDS, NV=1, MaxOps=4, Dev_ReplayDropsPerRecord=True, invariants=["Inv_Reads"])
     jobs.append(("dev_rep", mod, cfg, dict(workers=2, dump_trace=os.path.join(ck.work, "cex_rep.json"))))
+    # the snapshot half of F-12b alone: needs TTL, compaction, a LATER expireAt / persist, the clock past the original
+    # deadline, close, reopen (5 steps + the open)
+    mod, cfg = module(ck, "dev_snap", kinds=["setttl", "exp", "per", "compact", "close", "tick"], NK=1, NV=1, MaxOps=5,
+                      MaxTime=2, MaxTtl=1, WorkerOn=False, Dev_SnapshotDropsExpired=True, invariants=["Inv_Reads"])
+    jobs.append(("dev_snap", mod, cfg, dict(workers=1, dump_trace=os.path.join(ck.work, "cex_snap.json"))))
+    # byte-string keys: a C-string prefix comparison must be seen by the refinement invariant in the universe of binary
+    # keys (prefix scan right after a set, or a prefix remove that takes a key outside the prefix)
+    mod, cfg = module(ck, "dev_pfx", kinds=["set", "rmp"], pfx=PFX_ALL, NK=3, NV=1, MaxOps=3, MaxTime=0, KU=1,
+                      WorkerOn=False, Dev_PrefixStopsAtNul=True, invariants=["Inv_Reads", "Inv_Prefix"])
+    jobs.append(("dev_pfx", mod, cfg, dict(workers=1, dump_trace=os.path.join(ck.work, "cex_pfx.json"))))
+    # ... and the correct comparison holds there, all prefixes, with TTLs, restarts and the eviction path interleaved
+    mod, cfg = module(ck, "mcpfx", kinds=["set", "setttl", "rm", "rmp", "close", "tick"], pfx=PFX_ALL, NK=3, NV=1, MaxOps=3,
+                      MaxTime=1, MaxTtl=1, KU=1, invariants=["Inv_Reads", "Inv_Struct", "Inv_Prefix"])
+    jobs.append(("mcpfx", mod, cfg, dict(workers=3, timeout=1500)))
     # concurrent part: the split critical section must be seen by the refinement invariant (1 reader in the window +
     # writer actions + the eviction path); three configurations force three different writers into the window
     for tag, kinds, nv in (("fill_set", ["set", "get"], 2), ("fill_rm", ["set", "rm", "get"], 1),
@@ -126,13 +155,23 @@ def run(ck):
     mod, cfg = module(ck, "genR", kinds=["setttl", "exp", "per", "compact", "close", "tick"], NK=1, NV=1, MaxOps=4, MaxTime=2,
                       MaxTtl=2, WorkerOn=False, Emit=True, invariants=["EmitInv"])
     jobs.append(("genR", mod, cfg, dict(workers=2, timeout=1500)))
+    # histories with a SENSITIVE reopen (the model says: the persisted image distinguishes the load orders), one key, all
+    # 5-step histories; the reopen is printed as `open 1`
+    mod, cfg = module(ck, "genS", kinds=["setttl", "exp", "per", "compact", "close", "tick"], NK=1, NV=1, MaxOps=5, MaxTime=2,
+                      MaxTtl=2, WorkerOn=False, Emit=True, EmitSens=True, invariants=["EmitInv"])
+    jobs.append(("genS", mod, cfg, dict(workers=3, timeout=1500)))
+    # byte-string keys: every 3-step (thorough: 4-step) set / TTL / remove / prefix-remove (all six prefixes) / restart
+    # history over the three binary keys
+    mod, cfg = module(ck, "genP", kinds=["set", "setttl", "rm", "rmp", "close", "tick"], pfx=PFX_ALL, NK=3, NV=1,
+                      MaxOps=4 if thorough else 3, MaxTime=1, MaxTtl=1, KU=1, WorkerOn=False, Emit=True, invariants=["EmitInv"])
+    jobs.append(("genP", mod, cfg, dict(workers=3, timeout=1500)))
     if thorough:
         mod, cfg = module(ck, "mc3c0", CacheMax=0)
         jobs.append(("mc3c0", mod, cfg, dict(workers=4, timeout=2400)))
         mod, cfg = module(ck, "mc3c2", CacheMax=2)
         jobs.append(("mc3c2", mod, cfg, dict(workers=4, timeout=2400)))
     nsim = 700 if thorough else 120
-    mod, cfg = module(ck, "genL", NK=3, NV=3, MaxOps=8 if thorough else 7, MaxTime=4, WorkerOn=False, Emit=True,
+    mod, cfg = module(ck, "genL", pfx=PFX_ALL, NK=3, NV=3, MaxOps=8 if thorough else 7, MaxTime=4, WorkerOn=False, Emit=True,
                       invariants=["EmitInv"])
     jobs.append(("genL", mod, cfg, dict(workers=2, simulate="num=%d" % nsim, depth=40, seed=ck.seed)))
 
@@ -148,7 +187,7 @@ def run(ck):
         ck.transitions += r.generated
         ck.note("TLC %s: %s" % (tag, r.summary()))
     impl_bad = False
-    for tag in ("mc3", "mc4mem", "mc4disk", "mc3c0", "mc3c2"):
+    for tag in ("mc3", "mc4mem", "mc4disk", "mc3c0", "mc3c2", "mcpfx"):
         if tag in res and res[tag].violated:
             impl_bad = True
             rp = ck.save_replay("impl_spec_" + tag, {"tlc.out": res[tag].out})
@@ -160,15 +199,18 @@ def run(ck):
             if ck.cov.get(a, 0) == 0:
                 raise vf.Infra("self-test: Impl action %s never taken" % a)
     ck.exhaustive = True
-    probes = []
-    for tag, what in (("dev_res", "Dev_ExpiredKeyResurrected"), ("dev_rep", "Dev_ReplayDropsPerRecord")):
+    probes, probes1 = [], []
+    for tag, what in (("dev_res", "Dev_ExpiredKeyResurrected"), ("dev_rep", "Dev_ReplayDropsPerRecord"),
+                      ("dev_snap", "Dev_SnapshotDropsExpired"), ("dev_pfx", "Dev_PrefixStopsAtNul")):
         r = res[tag]
-        if r.violated != "Inv_Reads":
+        if r.violated not in (("Inv_Reads", "Inv_Prefix") if tag == "dev_pfx" else ("Inv_Reads",)):
             raise vf.Infra("self-test: Impl with %s = TRUE must violate Inv_Reads, got %r" % (what, r.violated))
         h = cex_history(r, 1)
         if not h:
             raise vf.Infra("self-test: no counterexample exported for " + what)
-        probes.append(h)
+        if tag == "dev_snap" and not ("compact" in h and "open" in h and ("exp" in h or "per" in h)):
+            raise vf.Infra("self-test: the counterexample of Dev_SnapshotDropsExpired has no compaction + later expireAt/persist + reopen: " + h)
+        (probes1 if tag == "dev_pfx" else probes).append(h)
         ck.sample({"kind": "probe: TLC counterexample of %s, replayed on the real store" % what, "history": h})
     conc_programs = []
     for tag in ("dev_fill_set", "dev_fill_rm", "dev_fill_exp"):
@@ -193,18 +235,42 @@ def run(ck):
     h3 = hist_lines(res["gen3"])
     hl = hist_lines(res["genL"])
     hr = [h for h in hist_lines(res["genR"]) if ("close" in h or "compact" in h) and ("setttl" in h or "exp" in h)]
+    hs = hist_lines(res["genS"])
+    hp = hist_lines(res["genP"])
     if len(h3) < 20000 or len(hl) < 50 or len(hr) < 1000:
         raise vf.Infra("generator produced too few histories: %d of 3 steps, %d long, %d restart" % (len(h3), len(hl), len(hr)))
+
+    def ext_after_compact(h):       # expiry extended / removed after a compaction, then a reopen the model calls sensitive
+        ops = h.split(";")
+        return any(ops[i] == "compact" and any(o.startswith("exp ") or o.startswith("per ") for o in ops[i + 1:j])
+                   for j in range(len(ops)) if ops[j] == "open 1" for i in range(j))
+    n_ext = sum(1 for h in hs if ext_after_compact(h))
+    n_rmp = len(set(o for h in hp for o in h.split(";") if o.startswith("rmp ")))
+    if len(hs) < 200 or n_ext < 20 or any("open 1" not in h for h in hs):
+        raise vf.Infra("generator: %d histories with a sensitive reopen, %d of them extend / remove an expiry after a "
+                       "compaction" % (len(hs), n_ext))
+    if len(hp) < 2000 or n_rmp != len(PFX_ALL):
+        raise vf.Infra("generator: %d byte-string-key histories using %d of %d prefixes" % (len(hp), n_rmp, len(PFX_ALL)))
     h3 = sorted(h3)
     hl = sorted(hl)
     hr = sorted(hr)
+    hs = sorted(hs)
+    hp = sorted(hp)
     rng.shuffle(h3)
     rng.shuffle(hl)
     rng.shuffle(hr)
+    rng.shuffle(hs)
+    rng.shuffle(hp)
     n3 = len(h3) if thorough else 2500
     nr = len(hr) if thorough else 900
-    base = probes + hl + hr[:nr] + h3[:n3]
+    ns = len(hs) if thorough else 1000
+    npf = min(len(hp), 15000) if thorough else 700
+    base = probes + hl + hr[:nr] + hs[:ns] + h3[:n3]
     cases = [("wheel=long order=0 cache=1 conc=0", h) for h in base]
+    # byte-string keys (universe 1: binary keys that are prefixes of each other, embedded NUL): the prefix histories, and
+    # the long / restart / 3-step histories once more - every step observes keysWithPrefix for all six prefixes
+    bin_hist = probes1 + hp[:npf] + hl + (hs + h3[:8000] if thorough else hs[:150] + h3[:300])
+    cases += [("wheel=long order=%d cache=1 conc=0 ku=1" % (i % 2), h) for i, h in enumerate(bin_hist)]
     n_o1 = len(base) if thorough else 900
     cases += [("wheel=long order=1 cache=1 conc=0", h) for h in (probes + hl + h3[:n3])[:n_o1]]
     cases += [("wheel=long order=0 cache=0 conc=0", h) for h in (hl[:150] + h3[:600] if thorough else hl[:25] + h3[:60])]
@@ -215,9 +281,11 @@ def run(ck):
     n_conc = 1500 if thorough else 150
     cases += [("wheel=short order=0 cache=2 conc=1", h) for h in noclose[:n_conc]]
     cases += [("wheel=long order=0 cache=3 conc=0", h) for h in hl[:200 if thorough else 40]]
-    ck.note("cases: %d (3-step histories %d of %d, restart/compaction histories %d of %d, long %d, short-wheel %d, "
-            "concurrent %d)" % (len(cases), n3, len(h3), nr, len(hr), len(hl), min(n_short, len(timed)),
-                                min(n_conc, len(noclose))))
+    ck.note("cases: %d (3-step histories %d of %d, restart/compaction histories %d of %d, sensitive-reopen histories "
+            "%d of %d (%d extend / remove an expiry after a compaction), byte-string-key histories %d of %d + %d others "
+            "in the binary universe, long %d, short-wheel %d, concurrent %d)" % (
+                len(cases), n3, len(h3), nr, len(hr), min(ns, len(hs)), len(hs), n_ext, min(npf, len(hp)), len(hp),
+                len(bin_hist) - min(npf, len(hp)), len(hl), min(n_short, len(timed)), min(n_conc, len(noclose))))
     out_path, stats = drive(ck, "main", cases)
     if stats["timeouts"]:
         raise vf.Infra("drv_kvmap: %d executions exceeded the wall-clock limit" % stats["timeouts"])
@@ -616,7 +684,7 @@ def nontrivial_history(h):
     ttl_at = [i for i, o in enumerate(ops) if o.startswith("setttl") or o.startswith("exp ") or
               (o.startswith("batch") and not o.startswith("batch 0"))]
     tick_at = [i for i, o in enumerate(ops) if o.startswith("tick")]
-    return (bool(ttl_at) and bool(tick_at) and min(ttl_at) < max(tick_at)) or "open" in ops or "compact" in ops
+    return (bool(ttl_at) and bool(tick_at) and min(ttl_at) < max(tick_at)) or "open" in ops or "open 1" in ops or "compact" in ops
 
 
 def judge(ck, name, cases, out_path):
@@ -690,7 +758,7 @@ def explain(lines, pos):
         last = json.loads(lines[pos])
     except Exception:
         pass
-    obs = {k: last[k] for k in ("g1", "g2", "ex", "keys", "pfx", "size", "gb", "ttl", "extra") if k in last}
+    obs = {k: last[k] for k in ("g1", "g2", "ex", "keys", "pfxm", "pfxn", "size", "gb", "ttl", "extra") if k in last}
     return ("; ".join(steps) + " => " + json.dumps(obs))[:700]
 
 
